@@ -40,6 +40,8 @@ type Options struct {
 	Audio    bool // attach sample channels
 	NoSerial bool // no serial writer
 	NoCPU    bool // do not create / initialise a CPU (Initialize rebinds package-level tables)
+	DebugCPU bool // Config.DebugCPU: the CPU prints a trace line per instruction (to stdout)
+	DebugLCD bool // Config.DebugLCD
 }
 
 // New builds a machine around the given ROM image. It may panic if the
@@ -55,7 +57,7 @@ func New(rom []byte, o Options) *Machine {
 	} else {
 		m.A = audio.New(nil, nil)
 	}
-	m.P = ppu.New(m.I, m.O, false)
+	m.P = ppu.New(m.I, m.O, o.DebugLCD)
 	if o.NoSerial {
 		m.S = serial.New(nil)
 	} else {
@@ -66,7 +68,7 @@ func New(rom []byte, o Options) *Machine {
 	m.C = controller.New()
 	m.M = memory.New(rom, m.I, m.O, m.P, m.C, m.S, m.T, m.A)
 	if !o.NoCPU {
-		m.CPU = cpu.New(m.I, m.O, false, m.M)
+		m.CPU = cpu.New(m.I, m.O, o.DebugCPU, m.M)
 		m.CPU.Initialize()
 	}
 	return m
